@@ -3,7 +3,7 @@
 use super::basic::{OpMix, ProgCfg};
 use super::progeng::*;
 use super::{Stats, Tier};
-use crate::blob::{self, Algo, Blob, ALGOS};
+use crate::blob::{Fill, self, Algo, Blob, ALGOS};
 use crate::exec::{Ctx, StepResult};
 use crate::gen::{SizeMix, WriteMix, MIB};
 use crate::model::Model;
@@ -69,6 +69,23 @@ fn c02_grid(tier: Tier) -> Vec<Program> {
                             out.push(Program { keys: keys.clone(), blobs: blobs.clone(), steps: vec![Step { op: Op::Write(s), fl }] });
                         }
                     }
+                }
+            }
+        }
+    }
+    // values with long zero runs (what sparse-file tricks key on), cut so that whole chunks are zero
+    for (zi, (len, fill)) in [(65536usize, Fill::Zero), (131072, Fill::Zero), (262144, Fill::ZeroTail), (393216, Fill::ZeroTail), (393216, Fill::ZeroHead), (MIB + 65536, Fill::ZeroTail)].into_iter().enumerate() {
+        let blobs = vec![Blob { len, salt: 7, fill }];
+        for fl in [Fl::Sync, Fl::Async] {
+            for (ci, ch) in [vec![], vec![1], vec![len - 65536], vec![len - len / 3 + 10, 4096, 65536], vec![len / 3, len / 3]].into_iter().enumerate() {
+                for declare in [Declare::None, Declare::Exact] {
+                    n += 1;
+                    let mut s = WriteSpec::simple(if n % 3 == 0 { None } else { Some(0) }, 0);
+                    s.entry = if ch.is_empty() && declare == Declare::None { WEntry::OneShotAlgo } else { WEntry::Opts };
+                    s.algo = ALGOS[(zi + ci) % 5];
+                    s.chunks = ch.clone();
+                    s.declare = declare;
+                    out.push(Program { keys: keys.clone(), blobs: blobs.clone(), steps: vec![Step { op: Op::Write(s), fl }] });
                 }
             }
         }
@@ -230,7 +247,7 @@ fn c08_cfg(tier: Tier) -> ProgCfg {
 
 fn c08_grid(tier: Tier) -> Vec<Program> {
     let lens: Vec<usize> = tier.pick(vec![7, 4097, MIB - 1, MIB + 1], vec![1, 7, 4097, 8193, MIB - 1, MIB, MIB + 1]);
-    let decls = [Declare::None, Declare::Exact, Declare::Off(-1), Declare::Off(1), Declare::Off(-(1 << 40))];
+    let decls = [Declare::None, Declare::Exact, Declare::Off(-1), Declare::Off(1), Declare::Off(-(1 << 40)), Declare::Off(1 << 32), Declare::Off(3 << 32)];
     let integs = [
         IntegDecl::None,
         IntegDecl::Correct,
@@ -239,6 +256,8 @@ fn c08_grid(tier: Tier) -> Vec<Program> {
         IntegDecl::MultiWithCorrect,
         IntegDecl::MultiAllWrong,
         IntegDecl::DigestOfOtherBlob,
+        IntegDecl::WrongTail,
+        IntegDecl::CaseToggled,
     ];
     let keys = vec!["k".to_string(), "other".to_string()];
     let mut out = Vec::new();
@@ -286,6 +305,32 @@ fn c08_grid(tier: Tier) -> Vec<Program> {
                             out.push(Program { keys: keys.clone(), blobs, steps });
                         }
                     }
+                }
+            }
+        }
+    }
+    // over-long and short streams of values with long zero runs: the surplus (or the missing
+    // part) consists of whole zero chunks
+    for (len, fill) in [(262144usize, Fill::ZeroTail), (393216, Fill::ZeroTail), (131072, Fill::Zero), (MIB + 131072, Fill::ZeroTail)] {
+        for off in [-65536i64, -4096, -8192, 4096, 65536] {
+            for fl in [Fl::Sync, Fl::Async] {
+                for keyed in [true, false] {
+                    n += 1;
+                    let cut = len - len / 3;
+                    let declared = (len as i64 + off) as usize;
+                    let mut s = WriteSpec::simple(if keyed { Some(0) } else { None }, 0);
+                    s.entry = WEntry::Opts;
+                    s.algo = ALGOS[n % 5];
+                    s.declare = Declare::Off(off);
+                    // a chunk boundary inside the zero run, before the declared end
+                    s.chunks = match n % 3 {
+                        0 => vec![cut + 16],
+                        1 => vec![cut + 16, declared.saturating_sub(cut + 16 + 100).max(1), 4096],
+                        _ => vec![declared.min(len) - 4096, 4096, 4096, 8192],
+                    };
+                    let blobs = vec![Blob { len, salt: 11, fill }, Blob::new(9, 4)];
+                    let steps = vec![Step { op: Op::Write(WriteSpec::simple(Some(1), 1)), fl: Fl::Sync }, Step { op: Op::Write(s), fl }];
+                    out.push(Program { keys: keys.clone(), blobs, steps });
                 }
             }
         }
